@@ -146,3 +146,67 @@ func branchOf(v ssa.Value, want bool) (*ssa.If, int) {
 	}
 	return ifi, b
 }
+
+// allRoots: every function the runtime may enter: implemented msg and query handlers, block hooks,
+// genesis, invariants.
+func (m *Model) allRoots() []*ssa.Function {
+	roots := m.ConsensusRoots()
+	for _, e := range m.Entries {
+		if e.Kind == "query" && e.Implemented && e.Fn != nil {
+			roots = append(roots, e.Fn)
+		}
+	}
+	return roots
+}
+
+// reachedOnlyThrough reports whether every call chain from a root to fn passes through one of the
+// gate functions (fn being a gate counts): a who-may-call rule that survives helper extraction and
+// renaming, because gates are identified by the generated server interface, not by name. When a
+// chain avoids the gates it is returned for the report.
+func (m *Model) reachedOnlyThrough(fn *ssa.Function, gates map[*ssa.Function]bool) (bool, string) {
+	if gates[fn] {
+		return true, ""
+	}
+	g := NewGraph(m.P)
+	prev := map[*ssa.Function]*ssa.Function{}
+	seen := map[*ssa.Function]bool{}
+	var work []*ssa.Function
+	for _, r := range m.allRoots() {
+		if r != nil && !seen[r] && !gates[r] {
+			seen[r] = true
+			work = append(work, r)
+		}
+	}
+	for len(work) > 0 {
+		f := work[0]
+		work = work[1:]
+		if f == fn {
+			var chain []string
+			for q := f; q != nil; q = prev[q] {
+				chain = append([]string{funcKey(q)}, chain...)
+			}
+			return false, strings.Join(chain, " → ")
+		}
+		for _, c := range g.Callees(f) {
+			if !seen[c] && !gates[c] {
+				seen[c] = true
+				prev[c] = f
+				work = append(work, c)
+			}
+		}
+	}
+	return true, ""
+}
+
+// entryFns returns the handler functions of the named entry points ("base.CreateBatch", …).
+func (m *Model) entryFns(keys ...string) map[*ssa.Function]bool {
+	out := map[*ssa.Function]bool{}
+	for _, e := range m.Entries {
+		for _, k := range keys {
+			if e.Kind == "msg" && e.Key() == k && e.Fn != nil {
+				out[e.Fn] = true
+			}
+		}
+	}
+	return out
+}
